@@ -68,7 +68,7 @@ func XorWithClipPaths64(subject, clip Paths64, fillRule FillRule) Paths64 {
 }
 
 func BooleanOpPaths64(clipType ClipType, subject Paths64, clip Paths64, fillRule FillRule) Paths64 {
-	if subject == nil {
+	if subject == nil && clip == nil {
 		return Paths64{}
 	}
 
